@@ -328,3 +328,37 @@ package encoder
 
 //@ writers[C14] typeAddr: initEncoder$1
 //@ writers[C14] cachedOpcodeSets: initEncoder$1, CompileToGetCodeSet
+
+// ---------------------------------------------------------------- string emitters (C17, C03)
+//@ spec unsafeByte(c) := c < 32 || c == '"' || c == 92
+//@ spec unsafeHTML(c) := unsafeByte(c) || c == '<' || c == '>' || c == '&'
+//@ tablelemma[C17,C03,C06] needEscape(j, v) := v <==> unsafeByte(j)
+//@ tablelemma[C17,C03,C06] needEscapeHTML(j, v) := v <==> unsafeHTML(j)
+//@ tablelemma[C17,C03,C06] needEscapeNormalizeUTF8(j, v) := v <==> (unsafeByte(j) || j >= 128)
+//@ tablelemma[C17,C03,C06] needEscapeHTMLNormalizeUTF8(j, v) := v <==> (unsafeHTML(j) || j >= 128)
+//@ spec apartS(d, s) := cap(d) == 0 || len(s) == 0 || ptrOf(d) + cap(d) <= ptrOf(s) || ptrOf(s) + len(s) <= ptrOf(d)
+
+//@ func stringToUint64Slice(s) (r)
+//@   inline
+
+//@ func appendString(buf, s) (res)
+//@   props C17 C03 C06
+//@   requires apartS(buf, s)
+//@   swar needEscape
+//@   nomerge
+//@   ensures len(res) >= len(buf) + 2 && res[len(buf)] == '"' && res[len(res)-1] == '"'
+//@   ensures forall k :: 0 <= k && k < len(buf) ==> res[k] == old(buf[k])
+// no raw control character leaves the emitter
+//@   ensures forall k :: 0 <= k && k < len(res) - len(buf) ==> res[len(buf)+k] >= 32
+//@   assigns M
+//@   loop 1: invariant -1 <= rangeindex && rangeindex < len(chunks) && len(chunks) == len(s) / 8 && ptrOf(chunks) == ptrOf(s)
+//@   loop 1: invariant forall k :: 0 <= k && k < 8 * (rangeindex + 1) ==> !unsafeByte(s[k])
+//@   loop 2: invariant 8 * len(chunks) <= i && i <= len(s)
+//@   loop 2: invariant forall k :: 0 <= k && k < i ==> !unsafeByte(s[k])
+//@   loop 3: invariant 0 <= i && i <= j && j <= len(s) && len(buf) > old(len(buf)) && apartS(buf, s)
+//@   loop 3: invariant forall k :: 0 <= k && k < j - i ==> !unsafeByte(s[i+k])
+//@   loop 3: invariant forall k :: 0 <= k && k < old(len(buf)) ==> buf[k] == old(buf[k])
+//@   loop 3: invariant buf[old(len(buf))] == '"'
+//@   loop 3: invariant forall k :: 0 <= k && k < len(buf) - old(len(buf)) ==> buf[old(len(buf))+k] >= 32
+//@   loop 3: invariant forall k :: 0 <= k && k < len(s) ==> s[k] == old(s[k])
+//@   loop 3: decreases len(s) - j
